@@ -37,7 +37,7 @@ Definition out_matches (a c : out) : bool :=
 Definition fout_matches (a c : fout) : bool :=
   match a, c with
   | FO x, FO y => out_matches x y
-  | FE FDuplicateName, FE FDuplicateName | FE FOverwrite, FE FOverwrite => true
+  | FE FDuplicateName, FE FDuplicateName | FE FOverwrite, FE FOverwrite | FE FTraversal, FE FTraversal => true
   | _, _ => false end.
 Fixpoint all2 {A} (f : A -> A -> bool) (l1 l2 : list A) : bool :=
   match l1, l2 with
@@ -48,7 +48,7 @@ Fixpoint all2 {A} (f : A -> A -> bool) (l1 l2 : list A) : bool :=
 
 
 def _vm_key(t):
-    a, b, c = t.split(",")
+    a, b, c = t.split("@")[0].split(",")
     return "(%s, %s, %s)" % (a, b, c)
 
 
@@ -56,6 +56,12 @@ def _vm_links(l):
     if l in ("-", ""):
         return "[]"
     return "[" + "; ".join(_vm_key(k) for k in l.split("+")) + "]"
+
+
+def _vm_titled(l):
+    if l in ("-", ""):
+        return "[]"
+    return "[" + "; ".join("(%s, %s)" % (_vm_key(k), k.split("@")[1]) for k in l.split("+") if "@" in k) + "]"
 
 
 def _vm_desc(t):
@@ -71,13 +77,13 @@ def _vm_ref(t):
 def _vm_blob(t):
     main, _, pre = t.partition("~")
     p = main.split(",", 2)
-    links = _vm_links(p[2])
+    links, tl = _vm_links(p[2]), _vm_titled(p[2])
     if pre:
         q = pre.split(",", 1)
-        ph, pl = q[0], _vm_links(q[1])
+        ph, pl, ptl = q[0], _vm_links(q[1]), _vm_titled(q[1])
     else:
-        ph, pl = p[0], links
-    return "(mkBlob %s %s %s %s %s)" % (p[0], p[1], links, ph, pl)
+        ph, pl, ptl = p[0], links, tl
+    return "(mkBlobT %s %s %s %s %s %s %s)" % (p[0], p[1], links, ph, pl, tl, ptl)
 
 
 def _vm_op(t):
@@ -103,6 +109,8 @@ def _vm_out(t, filek):
         return "FE FDuplicateName"
     if t == "err:overwrite":
         return "FE FOverwrite"
+    if t == "err:traversal":
+        return "FE FTraversal"
     if t == "ok":
         o = "OOk"
     elif t.startswith("err:"):
